@@ -7,7 +7,7 @@ from . import ir
 
 D = Decimal
 
-PLAIN_IDENTS = ['a', 'b', 'c', 'x1', 'account', 'position', 'date', 'units', 'foo_bar', '_x', 'a1b2', 'year', 'cost', 'total_', 'x__', '_', 'Mixed_Case']
+PLAIN_IDENTS = ['a', 'b', 'c', 'x1', 'account', 'position', 'date', 'units', 'foo_bar', '_x', 'a1b2', 'year', 'cost', 'total_', 'x__', '_']
 # identifiers that contain or start with reserved words
 TRICKY_IDENTS = ['nota', 'android', 'ordering', 'inx', 'isx', 'asc1', 'trueish', 'selection', 'fromage', 'nullable',
                  'opening', 'closed', 'clearing', 'limits', 'ons', 'ats', 'byte', 'betweenness', 'grouping']
